@@ -446,5 +446,6 @@ pub fn run(ctx: &mut Ctx) {
     let t = ctx.tier;
     ctx.campaign("histories", CampaignCfg::new(t.pick(1_600, 40_000)).shards(16).shrink_iters(150), strategy, run_case);
     ctx.campaign("release-race", CampaignCfg::new(t.pick(160, 3_000)).shards(16).shrink_iters(4), super::c09_nodes::race_strategy, super::c09_nodes::run_case);
+    ctx.campaign("rogue-idle", CampaignCfg::new(t.pick(160, 3_000)).shards(16).shrink_iters(6), super::c09_rogue::strategy, super::c09_rogue::run_case);
     ctx.campaign("nodes", CampaignCfg::new(t.pick(192, 4_000)).shards(16).shrink_iters(4), super::c09_nodes::strategy, super::c09_nodes::run_case);
 }
